@@ -252,10 +252,23 @@ func cmdCheck(argv []string) int {
 	dischargeAll(units, cfg, runtime.NumCPU())
 	solveS := time.Since(tSolve).Seconds()
 
+	if pat := os.Getenv("GOCV_DUMP_ALL"); pat != "" && *dump != "" {
+		// debugging aid: dump every obligation instance whose name contains the pattern, with its result
+		os.MkdirAll(*dump, 0o755)
+		n := 0
+		for _, u := range units {
+			for _, o := range u.obls {
+				if strings.Contains(o.Name, pat) {
+					n++
+					os.WriteFile(filepath.Join(*dump, fmt.Sprintf("%03d_%s_%s.smt2", n, o.Result, smtName(strings.ReplaceAll(o.Name, "#", "__")))), []byte(u.smtText(o, false)), 0o644)
+				}
+			}
+		}
+	}
 	if *verbose {
 		for _, u := range units {
 			for _, o := range u.obls {
-				if o.TimeS > 2 {
+				if o.TimeS > 1.0 {
 					fmt.Printf("  slow: %s %.1fs %s %s (%s)\n", o.Name, o.TimeS, o.Result, o.Backend, o.Where)
 				}
 			}
